@@ -22,7 +22,7 @@ META = {
                   'string segments': "alphabet {'a','b','zz','0','1','-1','x',''}"},
         'thorough': {'depth': '1, 2 (all kinds, all segment choices), 3 and 4 (restricted kinds)', 'list length': '0..4'},
     },
-    'stubs': ['S1 ScopeVars.__init__', 'S2 traceback.format_exc constant (walk_wrapped only)', 'S3 glom_debug=True',
+    'stubs': ['S2 traceback.format_exc constant (walk_wrapped only)', 'S3 glom_debug=True',
               'S4 state reset'],
     'outside_claim': ['string keys outside the alphabet', 'depth > 4', 'user-registered get handlers (C13)'],
     'assumptions': [],
